@@ -50,11 +50,81 @@ def drive(case, data, stream):
     return out, raised
 
 
+class _SockView:
+    """adapter giving a ScriptedSocket the (pos, faults, exhausted) view the driver needs: position = bytes handed out"""
+
+    def __init__(self, sock):
+        self.sock = sock
+
+    @property
+    def pos(self):
+        return len(self.sock.handed)
+
+    @property
+    def faults(self):
+        return sum(1 for _, o in self.sock.log if o in ("timeout", "oserror"))
+
+    @property
+    def exhausted(self):
+        return self.sock.closed_by_peer or (not self.sock.events)
+
+
+def drive_socket(case, data):
+    """the same stream through a socket: generated segmentation with timeouts / OS errors between segments; the
+    application keeps polling after (None, None) until the peer has closed"""
+    from pyrtcm import RTCMReader
+
+    from pv.doubles import ScriptedSocket
+
+    segs = streams.split(data, case["cuts"])
+    events = []
+    for k, sg in enumerate(segs):
+        events.append(sg)
+        f = case["faults"][k % len(case["faults"])] if case["faults"] else 0
+        if f == 1:
+            events.append("timeout")
+        elif f == 2:
+            events.append("oserror")
+    events.append("close")
+    sock = ScriptedSocket(events)
+    sock.budget = 6 * len(data) + 8 * len(events) + 256
+    view = _SockView(sock)
+    out = []
+    raised = 0
+    try:
+        rdr = RTCMReader(sock, validate=1, quitonerror=case["qoe"], parsed=True, bufsize=case["bufsize"])
+        guard = 0
+        limit = 4 * len(data) + 4 * len(events) + 256
+        while True:
+            guard += 1
+            if guard > limit:
+                raise Fail("non-termination", f"driver called read() {guard} times for {len(data)} bytes over a socket")
+            try:
+                raw, parsed = rdr.read()
+            except Fail:
+                raise
+            except Exception:  # pylint: disable=broad-except
+                raised += 1
+                continue
+            if raw is None and parsed is None:
+                if sock.closed_by_peer:
+                    break
+                continue
+            out.append((raw, parsed, view.pos, view.faults))
+    finally:
+        sock.close()
+    return out, raised, view
+
+
 def o_stream(case):
     items = case["items"]
     data = streams.join(items)
-    stream = ScriptedStream(data, case["script"], slack=32)
-    out, raised = drive(case, data, stream)
+    if case.get("stream") == "socket":
+        out, raised, stream = drive_socket(case, data)
+        stream.log = []
+    else:
+        stream = ScriptedStream(data, case["script"], slack=32)
+        out, raised = drive(case, data, stream)
     prev_end = 0
     for n, (raw, parsed, pos, _) in enumerate(out):
         if not isinstance(raw, (bytes, bytearray)):
@@ -82,7 +152,9 @@ def o_stream(case):
         if isinstance(df2, int) and df2 != num:
             raise Fail("message-number-mismatch", f"delivery {n}: DF002 {df2} but the slice carries number {num}")
     kinds = [i["k"] for i in items]
-    cls = [f"qoe{case['qoe']}"]
+    cls = [f"qoe{case['qoe']}", "stream-" + case.get("stream", "scripted")]
+    if case.get("stream") == "socket" and stream.faults:
+        cls.append("socket-timeout-or-error-mid-stream")
     hostile = any(k in ("damaged", "decoy") or i.get("arbitrary") or i.get("syncy") for k, i in zip(kinds, items))
     for i in items:
         if i.get("decoy"):
@@ -90,7 +162,7 @@ def o_stream(case):
     if "damaged" in kinds:
         cls.append("damaged")
     faults_before_last = out[-1][3] if out else 0
-    if stream.faults:
+    if stream.faults and case.get("stream") != "socket":
         cls.append("fault-applied")
         # was a fault applied inside a valid frame?
         off = 0
@@ -117,6 +189,17 @@ def o_stream(case):
 @st.composite
 def s_stream(draw, tier):
     items = draw(st.lists(streams.adversarial_items("small"), min_size=1, max_size=12))
+    if draw(st.integers(0, 3)) == 0:
+        n = sum(len(i["b"]) // 2 for i in items)
+        return {
+            "items": items,
+            "script": [],
+            "qoe": draw(st.sampled_from([0, 1, 2])),
+            "stream": "socket",
+            "cuts": draw(streams.partitions(n)),
+            "faults": draw(st.lists(st.sampled_from([0, 0, 1, 1, 2]), min_size=0, max_size=8)),
+            "bufsize": draw(st.sampled_from([1, 3, 64, 512, 4096])),
+        }
     script = draw(st.one_of(st.just([]), streams.read_scripts(64)))
     return {"items": items, "script": script, "qoe": draw(st.sampled_from([0, 1, 2]))}
 
@@ -132,7 +215,7 @@ SUBS = [
         strategy=s_stream,
         examples=(300, 6000),
         rule="see property rule",
-        need={"fault-inside-valid-frame": 1, "empty-read-inside-valid-frame": 1, "damaged": 1, "decoy:reserved-bits": 1, "decoy:lying-length": 1, "decoy:nested-ubx": 1, "decoy:jumbo-frame": 1, "delivered": 10},
+        need={"fault-inside-valid-frame": 1, "empty-read-inside-valid-frame": 1, "damaged": 1, "decoy:reserved-bits": 1, "decoy:lying-length": 1, "decoy:nested-ubx": 1, "decoy:jumbo-frame": 1, "delivered": 10, "socket-timeout-or-error-mid-stream": 1},
         sample=_sample,
     ),
     __import__("pv.fuzz.campaign", fromlist=["make"]).make("C01", ("C01",)),
